@@ -63,6 +63,10 @@ class Built:
     pass
 
 
+class RunawayRun(Exception):
+    pass
+
+
 def make_element(e):
     mo = g().mo
     t = e['type']
@@ -128,9 +132,15 @@ def build(spec, hooks=True):
     Torque = G_.un.Torque
     log = b.load_log
 
+    b.max_calls = None
+
     def external_torque(time, angular_position, angular_speed):
         t, p, w = si(time), si(angular_position), si(angular_speed)
         log.append((t, p, w))
+        if b.max_calls is not None and len(log) > b.max_calls:
+            # online monitor at the load hook: a run that computes far more instants than its duration allows is stopped here
+            # (otherwise a runaway time loop would only ever show up as a watchdog timeout, i.e. inconclusive)
+            raise RunawayRun(f'more than {b.max_calls} load evaluations: the run computes instants far beyond the requested simulation time')
         return Torque(load_value(load, t, p, w) / fac, lu)
     b.last.external_torque = external_torque
     b.pt = G_.Powertrain(motor=b.motor)
@@ -152,12 +162,26 @@ def build(spec, hooks=True):
     return b
 
 
-def apply_ic(b):
+def mkq_history(q, via_unit):
+    """the quantity q, but built in another unit (harness conversion) and converted in place to q's unit: an object with a history"""
+    if not via_unit or via_unit == q['u']:
+        return mkq(q)
+    obj = getattr(g().un, q['k'])(SI.convert(q['k'], q['v'], q['u'], via_unit), via_unit)
+    obj.to(q['u'], inplace=True)
+    return obj
+
+
+def apply_ic(b, units=None):
     """everything the scenario sets before the first run: position and speed of the last element and the duty cycle
     (re-applying after reset re-applies exactly these, the duty cycle explicitly even when it was the default)"""
     ic = b.spec['ic']
-    b.last.angular_position = mkq(ic['pos'])
-    b.last.angular_speed = mkq(ic['speed'])
+    pos, spd = ic['pos'], ic['speed']
+    if units:
+        # the same initial conditions written in other units (harness conversion)
+        from . import gen as GEN
+        pos, spd = GEN.reexpress(pos, units.get('pos', pos['u'])), GEN.reexpress(spd, units.get('speed', spd['u']))
+    b.last.angular_position = mkq(pos)
+    b.last.angular_speed = mkq(spd)
     if ic.get('pwm') is not None:
         b.motor.pwm = ic['pwm']
     elif hasattr(b, 'pwm0') and b.spec.get('reapply_pwm', True):
@@ -340,16 +364,19 @@ def run_schedule(b, on_capture=None):
                    'control': bool(b.control) and op.get('control', True),
                    'stop': bool(b.stop) and op.get('stop', True) and not b.is_probe, 'probe': b.is_probe,
                    'load_calls0': len(b.load_log)}
+            n_expected = int(math.ceil(round(rec['T'] / rec['dt'], 9))) + 1
+            b.max_calls = len(b.load_log) + 3 * n_expected + 10
             stop = b.stop if (rec['stop'] or rec['probe']) else None
             if op.get('stop_spec'):
                 stop = make_stop(b, op['stop_spec'])          # a stop condition of its own for this run
                 rec['stop'] = True
             try:
-                b.solver.run(time_discretization=mkq(op['dt']), simulation_time=mkq(op['T']),
+                b.solver.run(time_discretization=mkq_history(op['dt'], op.get('dt_via')), simulation_time=mkq_history(op['T'], op.get('T_via')),
                              motor_control=b.control if rec['control'] else None,
                              stop_condition=stop)
             except Exception as ex:          # recorded, judged by the monitors
                 rec['exc'] = (type(ex).__name__, str(ex)[:200])
+            b.max_calls = None
             rec['n1'] = len(b.pt.time)
             rec['load_calls1'] = len(b.load_log)
             runs.append(rec)
@@ -363,7 +390,7 @@ def run_schedule(b, on_capture=None):
             runs = []
             b.rule_log_mark, b.probe_log_mark, b.load_log_mark = len(b.rule_log), len(b.probe_log), len(b.load_log)
         elif o == 'reapply':
-            apply_ic(b)
+            apply_ic(b, op.get('units'))
         elif o == 'newsolver':
             b.solver = g().Solver(powertrain=b.pt)
     b.runs = runs
